@@ -122,26 +122,30 @@ def parseMemo : Sexp → Option (List Nat × List Nat × Nat)
     some (t, m, s)
   | _ => none
 
-def parsePair : Sexp → Option (Nat × Nat)
+/-- `(memo-index gram-index)` or `(memo-index gram-index source)` when the datagram arrives from another source -/
+def parsePair : Sexp → Option (Nat × Nat × Option Nat)
   | .list [mi, gi] => do
     let mi ← nat? mi; let gi ← nat? gi
-    some (mi, gi)
+    some (mi, gi, none)
+  | .list [mi, gi, s] => do
+    let mi ← nat? mi; let gi ← nat? gi; let s ← nat? s
+    some (mi, gi, some s)
   | _ => none
 
-def parseSched (b : Sexp) : Option (List (Nat × Nat)) := do
+def parseSched (b : Sexp) : Option (List (Nat × Nat × Option Nat)) := do
   let b ← list? b
   b.mapM parsePair
 
 def e2eRun (cfg : TxCfg) (authic : Bool) (vid : Option (List Nat)) (stab : List (List Nat × List Nat × List Nat))
     (vtab : List (List Nat × List Nat × List Nat × Option Exn)) (memos : List (List Nat × List Nat × Nat))
-    (sched : List (List (Nat × Nat))) : Sexp :=
+    (sched : List (List (Nat × Nat × Option Nat))) : Sexp :=
   let rs : List (Except Exn (List (List Nat))) := memos.map fun (tm : List Nat × List Nat × Nat) => rend cfg (mkSign stab) tm.1 vid tm.2.1
-  let pick1 : Nat × Nat → Option (List Nat × Nat) := fun p =>
+  let pick1 : Nat × Nat × Option Nat → Option (List Nat × Nat) := fun p =>
     match rs[p.1]?, memos[p.1]? with
     | some (.ok gs), some tm =>
-      if gs.isEmpty then none else (gs[p.2 % gs.length]?).map fun g => (g, tm.2.2)
+      if gs.isEmpty then none else (gs[p.2.1 % gs.length]?).map fun g => (g, p.2.2.getD tm.2.2)
     | _, _ => none
-  let batches : List (List (List Nat × Nat)) := sched.map fun (b : List (Nat × Nat)) => b.filterMap pick1
+  let batches : List (List (List Nat × Nat)) := sched.map fun (b : List (Nat × Nat × Option Nat)) => b.filterMap pick1
   Sexp.list [tag "rend" (rs.map outGrams), tag "rx" (rxRun authic (mkV vtab) batches [] [])]
 
 def handle (req : Sexp) : Sexp :=
